@@ -1,7 +1,7 @@
 (* C04 — executable model of the container objects stored in List / Dict / Set traits:
      lists  : TraitListObject = C05.Model.tlo_step (trait_list_object.py l.541-902),
-     sets   : TraitSetObject  = C07.Model.step      (trait_set_object.py),
-     dicts  : TraitDictObject = C06.Model.step      (trait_dict_object.py),
+     sets   : TraitSetObject  = C04.SetModel.step  (trait_set_object.py; copy of C07.Model),
+     dicts  : TraitDictObject = C04.DictModel.step (trait_dict_object.py; copy of C06.Model),
    plus whole-value assignment (List/Set/Dict.validate, trait_types.py l.2630-2648,
    2890-2904, 3036-3048: the value must be a list/set/dict (within minlen..maxlen for a
    list) and is copied item by item through the validators into a fresh container
@@ -10,12 +10,13 @@
    Executable definitions only. *)
 From Coq Require Import ZArith List Bool String.
 From TV Require Import Common.PySlice Common.PyList Common.LSet Common.LMap C05.Normalize C05.Model.
-Require TV.C06.Model TV.C07.Model.
+Require TV.C04.DictModel TV.C04.SetModel.
 Import ListNotations.
 Local Open Scope Z_scope.
 
-Module D := TV.C06.Model.
-Module S := TV.C07.Model.
+(* the dict and set models: C04's own copies of C06.Model / C07.Model (see DictModel.v, SetModel.v) *)
+Module D := TV.C04.DictModel.
+Module S := TV.C04.SetModel.
 
 (* ---------------- List(T, minlen, maxlen) ---------------- *)
 Inductive lop :=
